@@ -34,9 +34,9 @@ def epochStartSlot (spe e : Nat) : Option Nat :=
 /-- compute_activation_exit_epoch (the spec function itself is in uint64 and would overflow-error) -/
 def activationExitEpoch (lookahead e : Nat) : Nat := e + 1 + lookahead
 
-def churnLimit (minChurn quot active : Nat) : Nat := Nat.max minChurn (active / quot)
+def churnLimit (minChurn quot active : Nat) : Nat := max minChurn (active / quot)
 
 def committeeCount (spe target maxc active : Nat) : Nat :=
-  Nat.max 1 (Nat.min maxc (active / spe / target))
+  max 1 (min maxc (active / spe / target))
 
 end Zrnt.Util.Spec
